@@ -14,9 +14,10 @@ def replay_file(prop: str, path: str) -> int:
         from . import checks_query
         data["path"] = path
         return checks_query.replay(prop, data)
-    if prop not in ("C01", "C02", "C03", "C04", "C07", "C13") or "pre" not in (rec or {}) or rec.get("op", {}).get("name") == "fault" \
+    if prop not in ("C01", "C02", "C03", "C04", "C07", "C13") or "pre" not in (rec or {}) or rec.get("op", {}).get("name") in ("fault", "stale", "build_source") \
             or rec.get("fl") == "suite":
-        # serial / diff / lock / fs / generator cases and fault injections are re-run through the property's whole
+        # serial / diff / lock / fs / generator cases, fault injections and calls through stale handles (they need the
+        # history that removed the node) are re-run through the property's whole
         # quick check (the recorded case is part of what it enumerates)
         from . import check as C
         print(f"replaying {path} through the quick check of {prop}")
